@@ -9,7 +9,8 @@ import (
 // that the "consistent rename" stream can replace all occurrences of one
 // identifier at once.  Together they contain: user-supplied unique and index
 // lists (with a direction suffix), notification columns, a filter_ref on a
-// top-level input and on a block field, nested event components with a
+// top-level input and on a block field, a user-supplied "dependencies" list (the field has no json
+// tag: the key is decoded and kept; it reaches latestDependency), nested event components with a
 // filter_ref of their own, a reserved word as column name, filter_agg, a
 // string-typed input, transaction- and trace-shaped integrations.
 var Seeds = map[string]string{
@@ -50,6 +51,7 @@ var Seeds = map[string]string{
       "inputs": [{"indexed": true, "name": "who", "type": "address", "column": "addr"}]}
   }, {
     "name": "moves", "enabled": true,
+    "dependencies": ["holders"],
     "sources": [{"name": "base", "start": 7, "stop": 7}],
     "table": {"name": "moves_t", "columns": [{"name": "mover", "type": "bytea"}, {"name": "dest", "type": "bytea"},
                                               {"name": "qty", "type": "numeric"}]},
